@@ -920,12 +920,24 @@ func (w *c13World) history(S *big.Int) string {
 		}
 	}
 	d, _ = w.disputeNow()
+	if d.DisputeStatus == disputetypes.Prevote && r.Intn(3) == 0 {
+		w.opTime(24*time.Hour - time.Duration(w.now.Sub(d.DisputeStartTime)))
+		w.opExpire() // exactly at the end: not expired yet
+		if r.Intn(2) == 0 {
+			// ... and paid up in that very block: the dispute goes to the vote
+			remaining := bsub(d.SlashAmount.BigInt(), d.FeeTotal.BigInt())
+			for _, p := range w.payers {
+				if w.s.Bankkeeper.GetBalance(w.ctx, w.accts[p], w.s.Denom).Amount.BigInt().Cmp(remaining) >= 0 {
+					if w.opAddFee(p, w.curID, remaining, false) == c13OK {
+						break
+					}
+				}
+			}
+		}
+		d, _ = w.disputeNow()
+	}
 	if d.DisputeStatus == disputetypes.Prevote {
 		// under-funded: it fails after a day
-		if r.Intn(3) == 0 {
-			w.opTime(24*time.Hour - time.Duration(w.now.Sub(d.DisputeStartTime)))
-			w.opExpire() // exactly at the end: not expired yet
-		}
 		w.opTime(24*time.Hour + time.Duration(r.Intn(3))*time.Nanosecond)
 		w.opExpire()
 		if d, _ = w.disputeNow(); d.DisputeStatus == disputetypes.Prevote {
